@@ -742,8 +742,8 @@ Proof.
   rewrite enc_generic_cons, dec_bulk_wrong by assumption. reflexivity.
 Qed.
 
-Lemma holds_wrong_fmt t xs bfmt : c08_wf (KWrongFmt t xs bfmt) = true ->
-  ok_C08 (KWrongFmt t xs bfmt) (model_C08 (KWrongFmt t xs bfmt)) = true.
+Lemma holds_wrong_fmt t xs bfmt gen : c08_wf (KWrongFmt t xs bfmt gen) = true ->
+  ok_C08 (KWrongFmt t xs bfmt gen) (model_C08 (KWrongFmt t xs bfmt gen)) = true.
 Proof.
   cbn [c08_wf]. intros H.
   apply andb_split in H as [H _]. apply andb_split in H as [H Hf].
